@@ -200,6 +200,7 @@ def run_equivalences(ctx, kinds=("rename", "yoda", "dimkw", "commute", "size", "
     from ..model import AnalysisError, Repo
     mod = importlib.import_module(f"sa.rules.{ctx.prop}")
     base_bad = {(o.rule, o.construct) for o in ctx.obligations if not o.ok}
+    base_all = {(o.rule, o.construct) for o in ctx.obligations}
     n_base = len(ctx.obligations)
     res = {}
     problems = []
@@ -217,7 +218,11 @@ def run_equivalences(ctx, kinds=("rename", "yoda", "dimkw", "commute", "size", "
         bad = {(o.rule, o.construct) for o in c2.obligations if not o.ok}
         if bad != base_bad:
             problems.append(f"{kind}: verdict changed on a behaviour-preserving rewrite: {sorted(bad ^ base_bad)[:3]}")
-        res[kind] = {"obligations": len(c2.obligations), "same_verdicts": bad == base_bad}
+        all2 = {(o.rule, o.construct) for o in c2.obligations}
+        if all2 != base_all:
+            # an obligation that disappears under a rewrite would pass vacuously; one that appears was keyed by spelling
+            problems.append(f"{kind}: obligations differ on a behaviour-preserving rewrite: lost {sorted(base_all - all2)[:3]} new {sorted(all2 - base_all)[:3]}")
+        res[kind] = {"obligations": len(c2.obligations), "same_verdicts": bad == base_bad, "same_obligations": all2 == base_all}
     # restore interned state for the original sources
     Repo(ctx.repo.root)
     ctx.extra["equivalence_rewrites"] = res
